@@ -70,7 +70,7 @@ def oracle(case, ctx):
     labels0 = list(range(start, start + n0))
     y0 = mk(labels0, [val(k) for k in labels0], ik)
     model = {"obs": {k: float(v) for k, v in zip(labels0, y0.to_numpy())}, "cutoff": labels0[-1],
-             "fit_data": y0.copy()}
+             "fit_data": y0.copy(), "tf_fit_data": y0.copy()}
     f = pools.build_forecaster(spec)
     r = sut(f.fit, y0.copy(), None, gen.build_fh(steps, "list") if fh_fit else None)
     if isinstance(r, Raised):
@@ -90,15 +90,20 @@ def oracle(case, ctx):
         sp = spec if sp is None else sp
         fwd = (lambda s: s) if fwd is None else fwd
         c = model["cutoff"]
-        if pools.is_stateless_pipeline(sp):
-            # element-wise parameter-free transformers: the final forecaster must behave as if
-            # it had observed the transformed union; its forecast is mapped back in reverse order
+        if pools.is_fit_frozen_pipeline(sp):
+            # transformers that map every time point on its own with a state fixed by the last
+            # fit of the pipeline (update never re-estimates it): the final forecaster must
+            # behave as if it had observed the transformed union; its forecast is mapped back in
+            # reverse order
             ts = [pools.build_transformer(t) for t in sp["transformers"]]
+            s0 = fwd(model["tf_fit_data"].copy())
+            for t in ts:
+                s0 = t.fit_transform(s0.copy())
 
             def inner_fwd(s):
                 s = fwd(s)
                 for t in ts:
-                    s = t.fit_transform(s.copy())
+                    s = t.transform(s.copy())
                 return s
 
             p = expected_forecast(update_params_last, sp["forecaster"], inner_fwd)
@@ -161,6 +166,7 @@ def oracle(case, ctx):
                 discs.append(D("refit_raised:%s@%s" % (r2.type, r2.where), "%s: %s" % (desc, r2.msg)))
                 break
             model["fit_data"] = u
+            model["tf_fit_data"] = u
             model["params_current"] = True
             p = sut(f.predict, fh_arg())
             discs += check_forecast(p, model, steps, desc, "predict_after_refit", sut(expected_forecast, None))
